@@ -422,6 +422,11 @@ func (s *SMT) traverse() (err lib.ErrorI) {
 			currentKey = s.current.RightChildKey
 		}
 		s.stats.TraverseSteps++
+		// a node on the path towards a key always has both children; an absent child key means the walk ran
+		// into a node that is not part of this tree (e.g. an opaque sibling of a proof path)
+		if len(currentKey) == 0 {
+			return ErrInvalidMerkleTree()
+		}
 		// load current node from the store
 		s.current, err = s.getNode(currentKey)
 		if err != nil {
@@ -777,6 +782,12 @@ func (s *SMT) VerifyProof(k []byte, v []byte, validateMembership bool, root []by
 	if proofLen < 2 {
 		return false, ErrInvalidMerkleTreeProof()
 	}
+	// every node key in the proof must be a well-formed bit-string key of this tree
+	for _, n := range proof {
+		if n == nil || !validProofKey(n.Key, s.keyBitLength) {
+			return false, ErrInvalidMerkleTreeProof()
+		}
+	}
 	// The target is always the first value in the proof. For membership
 	// proofs, it represents the actual value being verified. For non-membership proofs,
 	// it indicates the potential location of the node. The initial root hash
@@ -879,6 +890,11 @@ func (s *SMT) VerifyProof(k []byte, v []byte, validateMembership bool, root []by
 	// navigates the tree downward
 	if err := smt.traverse(); err != nil {
 		return false, err
+	}
+	// the walk towards the claimed key must end at the very node the proof is about: ending anywhere else (e.g. at a
+	// sibling whose subtree the proof says nothing about) proves nothing about the claimed key
+	if !bytes.Equal(smt.current.Key.bytes(), proof[0].Key) {
+		return false, nil
 	}
 	// Verify whether the key exists in the tree and what kind of proof is being validated
 	// (membership or non-membership).
@@ -1194,6 +1210,15 @@ func (n *NodeList) GrandParent() *node { return n.Nodes[len(n.Nodes)-2] }
 
 // Pop() removes the node from the list
 func (n *NodeList) Pop() { n.Nodes = n.Nodes[:len(n.Nodes)-1] }
+
+// validProofKey() checks that node key bytes are a well-formed encoding: data bytes followed by one padding byte,
+// describing between 1 and maxBits bits
+func validProofKey(k []byte, maxBits int) bool {
+	if len(k) < 2 || k[len(k)-1] > 7 {
+		return false
+	}
+	return new(key).fromBytes(bytes.Clone(k)).totalBits() <= maxBits
+}
 
 // RootKey() value is arbitrary, but it happens to be right in the middle of Min and Max Hash for abstract cleanliness
 var (
